@@ -54,7 +54,7 @@ def main():
         rc_t, out_t = sh("cd /repo && /venv/bin/python -m pytest -q -p no:cacheprovider -x 2>&1 | tail -1")
         results, details = {}, {}
         try:
-            with ThreadPoolExecutor(6) as ex:
+            with ThreadPoolExecutor(int(os.environ.get("TRY_EQ_JOBS", "6"))) as ex:
                 for c, kind, det in ex.map(run_check, PROPS):
                     results[c] = kind
                     if det:
